@@ -553,3 +553,59 @@ def check_kind_delegation(ctx, rep):
             else:
                 rep.bad("R-KIND", "R-KIND:" + key, body.where(), "%s should build a %s but builds %s" % (name, kind, sorted(made_norm)))
     return n
+
+
+# ---------------------------------------------------------------------- N5 unsafe-call whitelist
+
+UNSAFE_ALLOWED = {
+    "std::ptr::const_ptr::<impl *const T>::as_ref": "null-checked conversion to Option<&T>",
+    "std::ptr::mut_ptr::<impl *mut T>::as_ref": "null-checked conversion to Option<&T>",
+    "std::ptr::mut_ptr::<impl *mut T>::as_mut": "null-checked conversion to Option<&mut T>",
+    "std::ffi::CStr::from_ptr": "read a caller-supplied C string (N1 requires the null test)",
+    "std::boxed::Box::from_raw": "destroy functions only (N3)",
+    "std::ffi::CString::from_raw": "haystack_string_destroy only (N3)",
+    "std::fmt::Arguments::new": "format_args! expansion",
+    "std::thread::local_impl::LazyStorage::get_or_init": "thread_local! expansion",
+}
+
+
+def check_unsafe_calls(ctx, rep):
+    """every call to an `unsafe fn` from the C API is one of the audited primitives or a forward to another extern fn:
+    raw writes (ptr::write), unchecked constructors (from_vec_unchecked, from_utf8_unchecked, from_raw_parts,
+    get_unchecked, transmute) bypass the checks the memory-safety argument relies on"""
+    prog = ctx.prog
+    n = 0
+    for b in prog.bodies.values():
+        if not b.file.startswith("src/c_api/"):
+            continue
+        seen = {}
+        for bi, t in b.calls():
+            c = callee_of(t)
+            if c is None:
+                continue
+            head = c["ty"].split("fn(")[0]
+            if "unsafe" not in head:
+                continue
+            n += 1
+            nm = strip_generics(c.get("res") or c["fn"])
+            k = seen.get(nm, 0)
+            seen[nm] = k + 1
+            key = "N5:%s:%s#%d" % (b.short, nm, k)
+            res = c.get("res")
+            if nm in UNSAFE_ALLOWED:
+                rep.ok("R-FFI-N5", key, b.where(bi), "audited primitive: " + UNSAFE_ALLOWED[nm])
+            elif res in prog.bodies and prog.bodies[res].rec.get("abi", "").startswith("C"):
+                rep.ok("R-FFI-N5", key, b.where(bi), "forwards to another extern \"C\" function (checked on its own)")
+            else:
+                rep.bad("R-FFI-N5", "R-FFI-N5:%s:%s" % (b.short, nm), b.where(bi), "call to unsafe fn %s from the C API is not on the audited list: it bypasses the null / ownership / validity checks the memory-safety argument rests on" % nm)
+    # transmutes and raw-pointer writes done without a call
+    for b in prog.bodies.values():
+        if not b.file.startswith("src/c_api/"):
+            continue
+        for bi, blk in enumerate(b.blocks):
+            for st in blk["stmts"]:
+                if st["k"] == "assign" and st["rv"]["k"] == "cast" and st["rv"]["ck"] == "Transmute" and not st.get("exp"):
+                    rep.bad("R-FFI-N5", "R-FFI-N5:%s:transmute" % b.short, b.where(bi, st.get("line")), "transmute in the C API")
+                if st["k"] == "intrinsic":
+                    rep.bad("R-FFI-N5", "R-FFI-N5:%s:intrinsic" % b.short, b.where(bi, st.get("line")), "raw memory intrinsic in the C API: %s" % st.get("dbg", "")[:60])
+    return n
